@@ -190,7 +190,7 @@ var vrtExternals = map[string]externalFn{
 			}
 			if r == Unknown {
 				p.tainted = true
-				p.w.unknownBranches++
+				p.w.unknownFeas++
 			}
 			p.addPC(c)
 		}
